@@ -45,9 +45,10 @@ def llgo_env(ctx, extra=None):
     e["LLGO_ROOT"] = REPO
     e["CCFLAGS"] = "-I%s -mllvm -opaque-pointers" % os.path.join(sh, "include")
     e["LDFLAGS"] = "-L%s" % os.path.join(sh, "lib")
-    e["XDG_CACHE_HOME"] = os.path.join(d, "xdg")       # llgo's package-archive cache: private per check run
-    # ... but the Go build cache (content addressed, so never stale) stays shared: otherwise every run re-exports std (~60 s)
-    e["GOCACHE"] = os.environ.get("GOCACHE") or os.path.join(os.path.expanduser("~"), ".cache", "go-build")
+    # llgo's package-archive cache AND the Go build cache (GOCACHE defaults to $XDG_CACHE_HOME/go-build) are private per
+    # check run: several checks locate the -gen-llfiles IR by globbing <llgo_dir>/xdg/go-build, and a private cache keeps
+    # concurrent checks from seeing each other's IR.  Cost: std export data is rebuilt once per run (~60 s).
+    e["XDG_CACHE_HOME"] = os.path.join(d, "xdg")
     e["TMPDIR"] = os.path.join(d, "tmp")
     if extra:
         e.update(extra)
